@@ -38,3 +38,5 @@ def run(ctx, rep):
     more5.rule_snode_tests(mod, rep)
     from ..rules import more5
     more5.rule_align_dir(mod, rep)
+    from ..rules import more6
+    more6.rule_alloc_range(mod, rep, floor=100)
